@@ -7,6 +7,7 @@ mod regs;
 mod run;
 mod compile;
 mod num;
+mod json;
 
 fn main() {
     let args: Vec<String> = std::env::args().collect();
@@ -19,6 +20,7 @@ fn main() {
         "run" => run::main(&rest),
         "compile" => compile::main(&rest),
         "num" => num::main(&rest),
+        "json" => json::main(&rest),
         _ => {
             eprintln!("usage: th <engine> <args..>");
             2
